@@ -304,9 +304,17 @@ fn check_part_b(case: &Value, dw: &DocWorld) -> Vec<(String, Value, Value)> {
       m.insert("x-custom".into(), json!({"a": [1, 2, 3]}));
       o = o.custom_header_parameters(m);
     }
-    "collides" => {
+    name @ ("kid" | "alg" | "typ" | "nonce" | "url" | "cty" | "jwk" | "b64" | "crit") => {
+      // a custom parameter named like a member the call sets itself
       let mut m = identity_core::common::Object::new();
-      m.insert("kid".into(), json!("did:example:someone-else#key"));
+      let v = match name {
+        "b64" => json!(false),
+        "crit" => json!(["b64"]),
+        "jwk" => json!({"kty": "OKP", "crv": "Ed25519", "x": "11qYAYKxCrfVS_7TyWQHOg7hcvPapiMlrwIaaPcHURo"}),
+        "url" => json!("https://example.com/other"),
+        _ => json!("did:example:someone-else#key"),
+      };
+      m.insert(name.into(), v);
       o = o.custom_header_parameters(m);
     }
     _ => {}
@@ -324,7 +332,7 @@ fn check_part_b(case: &Value, dw: &DocWorld) -> Vec<(String, Value, Value)> {
     }
     Ok(j) => {
       if want != "produced" {
-        if s(&cfg["custom"]) == "collides" {
+        if !matches!(s(&cfg["custom"]), "none" | "x-custom") {
           // the property is about what IS produced: a produced token must be readable by the library itself
           if let Err(e) = Decoder::new().decode_compact_serialization(j.as_str().as_bytes(), None) {
             if !b(&cfg["detached"]) {
